@@ -821,6 +821,16 @@ func (c *Ctx) Concat(hi, lo *Term) *Term {
 	if hi.Op == OConst && hi.K == 0 {
 		return c.ZExt(lo, w)
 	}
+	// re-assembly of adjacent slices of the same term
+	if hi.Op == OExtract && lo.Op == OExtract && hi.A == lo.A && hi.K == lo.K+uint64(lo.W) {
+		return c.Extract(hi.A, uint8(lo.K), w)
+	}
+	if hi.Op == OExtract && hi.K == uint64(lo.W) && hi.A == lo {
+		// concat(extract(x, |lo|..), lo) cannot happen (lo would be wider); skip
+	}
+	if hi.Op == OExtract && lo == hi.A && false {
+		return lo
+	}
 	return c.mk(OConcat, w, hi, lo, nil, 0, "")
 }
 
